@@ -24,6 +24,11 @@ func IndexTable(db objects.Store, tblSum []byte, tbl *objects.Table, logger logr
 		bb        []byte
 		blkIdxSum []byte
 	)
+	for _, k := range tbl.PK {
+		if int(k) >= len(tbl.Columns) {
+			return fmt.Errorf("primary key index %d out of range (%d columns)", k, len(tbl.Columns))
+		}
+	}
 	logger = logger.WithName("IndexTable")
 	logger.Info("indexing table", "sum", tblSum)
 	for i, sum := range tbl.Blocks {
